@@ -20,6 +20,11 @@ hist     {'ops0': [query, ...] earlier queries on the reference System object, '
           function calls are repeated at the end and must return the same), 'forms': int (bit field: numpy-scalar
           cutoff, list/tuple vectors, list / Fortran-ordered / read-only p vectors, integer theta_max),
           'intpos': bool (crystal with whole-number coordinates handed over as integers)}
+lscale   int k: the length unit of the whole case.  Every length of the case (lattice parameter, cell origin, translations,
+          cutoffs, slips, plane positions, p vectors) is multiplied by 10**k in the oracle, k = -12 .. 4 (k = 0: the numbers
+          as drawn, Angstrom-like, a healthy third; k = -10: the same crystal in metres, atomman's working units may be SI;
+          k = -1: nm; k > 0: pm / fm-like large numbers).  Relative quantities (F, box shifts, slip in nearest-neighbour
+          distances, cutoff position inside a shell gap) are not touched.
 shist    None | {'mode': inplace|pvec|theta, 'F0': gradient, 'move0': move, 'reads0': [property names read before the
           change], 'resolve': solve|solve_theta|clear|setter, 'pset': int, 'order': int}: one Strain object is solved in an
           earlier state (other deformation of the same System object / other reference vectors / other theta_max),
@@ -153,6 +158,10 @@ _intpos = st.sampled_from([False] * 9 + [True])
 _whole_origin = st.lists(st.integers(-20, 20).map(float), min_size=3, max_size=3)
 
 
+# length unit 10**k of the whole case (see module docstring)
+_lscale = st.sampled_from([0] * 5 + [-10, -10, -10, -1, -9] + list(range(-12, 5)))
+
+
 @st.composite
 def queries(draw):
     return [{'op': draw(_qop), 'k': draw(_qint), 'x': draw(_unit)} for _ in range(draw(_nq))]
@@ -206,8 +215,10 @@ def whole_number_crystal(xt, origin):
 
 def _with_history(draw, c, hist):
     h = draw(hist)
+    c['lscale'] = draw(_lscale)
     if h['intpos']:
         c['xtal'] = whole_number_crystal(c['xtal'], draw(_whole_origin))
+        c['lscale'] = max(0, c['lscale'])          # whole numbers stay whole numbers in a smaller unit only
     c['hist'] = h
     return c
 
